@@ -187,6 +187,8 @@ struct Obs {
     export_keys: Option<Vec<(u64, u32, u8, Vec<u8>)>>,
     /// the same with a sync_all() after every 7 messages
     export_keys_synced: Option<Vec<(u64, u32, u8, Vec<u8>)>>,
+    /// the same with a recorded-time window in the configuration that contains every message
+    export_keys_timewin: Option<Vec<(u64, u32, u8, Vec<u8>)>>,
 }
 
 fn observe(fx: &Fixture, set: &[&PoolEntry]) -> Result<Obs, (String, String)> {
@@ -260,6 +262,7 @@ fn observe(fx: &Fixture, set: &[&PoolEntry]) -> Result<Obs, (String, String)> {
     }
     // (d) the export plugin (sets of up to EXPORT_MAX_SET filters): it builds its own container from the same JSON
     let mut export_keys_synced: Option<Vec<(u64, u32, u8, Vec<u8>)>> = None;
+    let mut export_keys_timewin: Option<Vec<(u64, u32, u8, Vec<u8>)>> = None;
     let export_keys = if set.len() <= export_max_set() {
         let dir = if std::path::Path::new("/dev/shm").is_dir() { "/dev/shm" } else { "/tmp" };
         let path = format!("{dir}/mc-c12-export-{}-{:?}.dlt", std::process::id(), std::thread::current().id());
@@ -267,7 +270,12 @@ fn observe(fx: &Fixture, set: &[&PoolEntry]) -> Result<Obs, (String, String)> {
         let cfg = json!({"name": "Export", "exportFileName": path, "filters": set.iter().map(|p| serde_json::from_str::<Value>(&p.json).unwrap()).collect::<Vec<_>>()});
         // twice: in one go, and with a sync_all() after every 7 messages (the trait allows it at any time)
         let mut both = vec![];
-        for sync_every in [usize::MAX, 7] {
+        for (sync_every, time_window) in [(usize::MAX, false), (7, false), (usize::MAX, true)] {
+            let mut cfg = cfg.clone();
+            if time_window {
+                cfg["recordedTimeFromMs"] = json!(0);
+                cfg["recordedTimeToMs"] = json!(4_000_000_000_000u64);
+            }
             let r = catch(|| -> Result<(), String> {
                 let mut plugin = adlt::plugins::export::ExportPlugin::from_json(cfg.as_object().unwrap()).map_err(|e| e.to_string())?;
                 use adlt::plugins::plugin::Plugin;
@@ -302,12 +310,13 @@ fn observe(fx: &Fixture, set: &[&PoolEntry]) -> Result<Obs, (String, String)> {
             keys.sort();
             both.push(keys);
         }
+        export_keys_timewin = both.pop();
         export_keys_synced = both.pop();
         both.pop()
     } else {
         None
     };
-    Ok(Obs { fas_kept, fas_unchanged: unchanged, fas_counts: counts, mf_kept, stream_sets, export_keys, export_keys_synced })
+    Ok(Obs { fas_kept, fas_unchanged: unchanged, fas_counts: counts, mf_kept, stream_sets, export_keys, export_keys_synced, export_keys_timewin })
 }
 
 /// the export plugin is driven for filter sets up to this size (quick 2, thorough 3; set by the run)
@@ -383,6 +392,10 @@ fn judge(fx: &Fixture, set: &[&PoolEntry]) -> Vec<(String, String, String)> {
         } else if let Some(ks) = &obs.export_keys_synced {
             if *ks != want && !v.iter().any(|(c, _, _)| c == "mf_selection") {
                 v.push(("export_selection".into(), "with_intermediate_sync".into(), format!("with a sync_all() after every 7 messages the export file holds {} messages, the statement keeps {} of {n}", ks.len(), want.len())));
+            } else if let Some(kt) = &obs.export_keys_timewin {
+                if *kt != want && !v.iter().any(|(c, _, _)| c == "mf_selection") {
+                    v.push(("export_selection".into(), "with_recorded_time_window".into(), format!("with recordedTimeFromMs / recordedTimeToMs set to a window that contains every message the export file holds {} messages, the statement keeps {} of {n}", kt.len(), want.len())));
+                }
             }
         }
     }
